@@ -16,15 +16,15 @@ import (
 
 type zzC05World struct {
 	*zzMgrWorld
-	sm      *ScopedKeyManager
-	pubAddr []ManagedPubKeyAddress   // chained and imported key addresses
-	scripts []ManagedScriptAddress   // imported script addresses (secret)
-	cached  []DerivationPath         // paths used with DeriveFromKeyPathCache
-	privCT  []byte                   // a ciphertext under the private crypto key
-	scriptCT []byte                  // a ciphertext under the script crypto key
-	pass    []byte
-	taproot ManagedTaprootScriptAddress
-	kept    []ManagedPubKeyAddress // derived by path while unlocked, held by the caller only
+	sm       *ScopedKeyManager
+	pubAddr  []ManagedPubKeyAddress // chained and imported key addresses
+	scripts  []ManagedScriptAddress // imported script addresses (secret)
+	cached   []DerivationPath       // paths used with DeriveFromKeyPathCache
+	privCT   []byte                 // a ciphertext under the private crypto key
+	scriptCT []byte                 // a ciphertext under the script crypto key
+	pass     []byte
+	taproot  ManagedTaprootScriptAddress
+	kept     []ManagedPubKeyAddress // derived by path while unlocked, held by the caller only
 }
 
 func zzAllZero(b []byte) bool {
@@ -345,10 +345,10 @@ func zzC05Lock(state int) {
 
 func ZzC05LockUntouchedScope() { zzC05Lock(5) }
 func ZzC05LockInvalidated()    { zzC05Lock(6) }
-func ZzC05LockFresh()   { zzC05Lock(0) }
-func ZzC05LockIssued()  { zzC05Lock(1) }
-func ZzC05LockImports() { zzC05Lock(2) }
-func ZzC05LockReloaded() { zzC05Lock(3) }
+func ZzC05LockFresh()          { zzC05Lock(0) }
+func ZzC05LockIssued()         { zzC05Lock(1) }
+func ZzC05LockImports()        { zzC05Lock(2) }
+func ZzC05LockReloaded()       { zzC05Lock(3) }
 
 // ZzC05Guess: Unlock with an arbitrary same-length passphrase succeeds iff it
 // is the passphrase; a failed attempt leaves the manager locked.
@@ -379,8 +379,8 @@ func zzC05Guess(state int) {
 	verifrt.Reach("c05-end")
 }
 
-func ZzC05GuessFresh()   { zzC05Guess(0) }
-func ZzC05GuessImports() { zzC05Guess(2) }
+func ZzC05GuessFresh()            { zzC05Guess(0) }
+func ZzC05GuessImports()          { zzC05Guess(2) }
 func ZzC05GuessWatchOnlyAccount() { zzC05Guess(4) }
 func ZzC05LockWatchOnlyAccount()  { zzC05Lock(4) }
 
